@@ -29,6 +29,6 @@ Report ==
 BadState == {n \in {"C17_Same", "C17_Return", "C17_StillTyped", "C17_Validated"} :
                 CASE n = "C17_Same" -> ~C17_Same [] n = "C17_Return" -> ~C17_Return
                   [] n = "C17_StillTyped" -> ~C17_StillTyped [] n = "C17_Validated" -> ~C17_Validated}
-ReportState == l > 1 => PrintT(<<"TRACE", ToJson([t |-> tid, l |-> l - 1, bo |-> {}, bi |-> BadState])>>)
+ReportState == l > 1 => PrintT(<<"TRACE", ToJson([t |-> tid, l |-> l - 1, bo |-> {}, bi |-> BadState, st |-> TRUE])>>)
 TraceView == <<L, R, D, RD, tid, l>>
 ====
